@@ -11,15 +11,9 @@ NOTE_COMMON = ("Trusted: Coq 8.16.1 kernel + VM (vm_compute); no axioms declared
                "Gallina model (modelled, not verified) tied to /repo by the generated-case correspondence of each run; the Python harness; "
                "CPython semantics as encoded in the model (DESIGN.md section 6 and appendix A).")
 
-CLAIMED = {
-    "C11": dict(
-        text="Theorems for all texts/layouts on the Coq model of PDDLTokenizer (layout, comment and case invariance; the reader returns exactly a prefix of the token "
-             "stream, equals the strict reader unless tokens are left unread; unbalanced text is an error; fuel never runs out). Model tied to /repo on every run by "
-             "evaluating model and strict spec inside Coq (vm_compute) on the implementation's answers for exhaustive small token trees x layouts, random larger ones, "
-             "all single-parenthesis corruptions and raw character soup, from file and from string. Finding D02 (trailing tokens ignored) is recorded, with a refutation theorem.",
-        design="5/C11", technique="Coq proof (induction on token trees / layouts, reflection over the 256 characters) + vm_compute correspondence with the implementation",
-        note=NOTE_COMMON + " ASCII input only."),
-}
+CLAIMED = {}
+for frag in sorted((ROOT / "manifest.d").glob("C*.json")):
+    CLAIMED[frag.stem] = json.loads(frag.read_text())
 
 NOT_YET = "machinery under construction in this round; not yet claimed"
 
@@ -38,7 +32,7 @@ def main():
             "replay_cmd_template": "./check %s --replay {path}" % pid,
             "engine": "coq-model-correspondence",
             "level_claimed": {"category": c.get("category", "proof"), "text": c["text"], "design_ref": "DESIGN.md section " + c["design"]},
-            "level_note": c["note"],
+            "level_note": c.get("note") or NOTE_COMMON,
             "technique": c["technique"],
         })
     m = {
